@@ -228,14 +228,14 @@ def mean_and_std(forest, correct_bias=True):
 
     if isinstance(forest[0], Vector):
         m = mean(forest)
-        mean_of_sq = mean(tuple(t**2 for t in forest))
+        mean_of_sq = mean(tuple(abs(t) ** 2 for t in forest))
     else:
         m = Vector(mean(forest))
-        mean_of_sq = mean(tuple(Vector(t) ** 2 for t in forest))
+        mean_of_sq = mean(tuple(abs(Vector(t)) ** 2 for t in forest))
 
     n = len(forest)
     scl = jnp.sqrt(n / (n - 1)) if correct_bias else 1.0
-    std = scl * tree_map(jnp.sqrt, mean_of_sq - m**2)
+    std = scl * tree_map(jnp.sqrt, mean_of_sq - abs(m) ** 2)
     if isinstance(forest[0], Vector):
         return m, std
     else:
